@@ -14,7 +14,7 @@
 int nondet_int(void); @R@ nondet_real(void); _Bool nondet_bool(void);
 void verif_abort(char *msg) { __CPROVER_assume(0); }
 
-#define GX
+#define GX_DEFINE
 #include "drv_ghost.h"
 #define LOG(at) do { g_seq++; (at) = g_seq; } while (0)
 
